@@ -274,6 +274,9 @@ fn push_line(st: &mut RunState, t: u64, node: i64, ev: &str, mut obj: Map<String
     obj.insert("t".into(), t.into());
     obj.insert("node".into(), node.into());
     obj.insert("ev".into(), ev.into());
+    if std::env::var_os("VERIF_ECHO").is_some() {
+        eprintln!("{}", Value::Object(obj.clone()));
+    }
     st.lines.push(Value::Object(obj));
 }
 
